@@ -42,6 +42,7 @@ type fakeCtl struct {
 	okSent  map[string][]int64
 	workQ   []chan workResult
 	workReq []string
+	onLogin func() // runs right before the LoginResp is written
 }
 
 type workResult struct {
@@ -309,7 +310,7 @@ func scriptedCase(c *h.Case) {
 	pfx := fmt.Sprintf("c%d.", c.Idx)
 	defer forgetPhases(pfx)
 	f := &fakeCtl{policy: map[string][]string{}, errSent: map[string][]int64{}, okSent: map[string][]int64{}}
-	templates := []string{"start-error", "missing-reply", "removed-while-outstanding", "changed-while-outstanding", "health-gated-work-conn", "unchanged-reload"}
+	templates := []string{"start-error", "missing-reply", "removed-while-outstanding", "changed-while-outstanding", "health-gated-work-conn", "unchanged-reload", "reload-during-login", "reload-during-login"}
 	tpl := templates[rng.Intn(len(templates))]
 	if c.Idx-baseScripted < len(templates) {
 		tpl = templates[c.Idx-baseScripted] // every template at least once in every run
@@ -353,7 +354,16 @@ func scriptedCase(c *h.Case) {
 		c.Data["hc_maxFailed"] = e.hcMax
 	}
 
-	f.fs, err = h.StartFakeServer(h.FakeServerOpts{Port: e.port, Token: token, TCPMux: true, OnSession: f.session, OnWorkConn: f.onWorkConn})
+	f.fs, err = h.StartFakeServer(h.FakeServerOpts{Port: e.port, Token: token, TCPMux: true, OnSession: f.session, OnWorkConn: f.onWorkConn,
+		OnLogin: func(*h.FakeServer, *msg.Login) (*msg.LoginResp, bool) {
+			f.mu.Lock()
+			fn := f.onLogin
+			f.mu.Unlock()
+			if fn != nil {
+				fn()
+			}
+			return nil, true
+		}})
 	if err != nil {
 		run.Inconclusive("scripted: fake server did not start")
 		return
@@ -393,12 +403,17 @@ func scriptedCase(c *h.Case) {
 		sigExtra = fmt.Sprint(e.hcMax)
 	case "unchanged-reload":
 		okRun = tplUnchanged(e, rng.Intn(3))
+	case "reload-during-login":
+		okRun = tplReloadDuringLogin(e)
 	}
 	if !okRun {
 		return
 	}
 	// common end of every template: the untouched proxies were registered exactly once and never closed
 	for _, n := range []string{b, cc} {
+		if tpl == "reload-during-login" {
+			break // sessions are cut on purpose there
+		}
 		if s := f.streamOf(n); s != "N" {
 			e.fail("unchanged-entry-registered-again", "message stream of the untouched proxy %s is %q (N = NewProxy, C = CloseProxy), want a single registration", n, s)
 			return
@@ -736,6 +751,65 @@ func tplUnchanged(e *sEnv, variant int) bool {
 	if s := f.streamOf(a); s != "N" {
 		e.fail("unchanged-entry-registered-again", "%s: stream %q", a, s)
 		return false
+	}
+	return true
+}
+
+// a reload arrives while a (re-)login is completing: whatever the interleaving, the session that
+// results must end up with the configuration loaded last
+func tplReloadDuringLogin(e *sEnv) bool {
+	f := e.f
+	a := e.pfx + "a"
+	rng := e.c.R.RandFor("relogin", e.c.Idx)
+	if !e.waitPhase(a, "running", 15*time.Second) {
+		e.fail("configured-proxy-not-started", "%s: status %q", a, e.phase(a))
+		return false
+	}
+	rounds := 6
+	for r := 1; r <= rounds; r++ {
+		delay := []time.Duration{0, 50 * time.Microsecond, 150 * time.Microsecond, 400 * time.Microsecond, time.Millisecond, 2500 * time.Microsecond}[rng.Intn(6)]
+		meta := fmt.Sprintf("a%d", r)
+		applied := make(chan struct{})
+		f.mu.Lock()
+		f.onLogin = func() {
+			f.mu.Lock()
+			f.onLogin = nil
+			f.mu.Unlock()
+			go func() {
+				defer close(applied)
+				time.Sleep(delay)
+				e.metas[a] = meta
+				e.reload()
+			}()
+		}
+		f.mu.Unlock()
+		logins := f.fs.Logins.Load()
+		f.fs.CutAll() // the client logs in again (first retries come after ~200 ms)
+		if !h.Eventually(30*time.Second, func() bool { return f.fs.Logins.Load() > logins }) {
+			run.Inconclusive("scripted: client did not log in again")
+			return false
+		}
+		select {
+		case <-applied:
+		case <-time.After(20 * time.Second):
+			run.Inconclusive("scripted: reload did not return")
+			return false
+		}
+		// bounded progress: the last NewProxy for a carries the metadatas loaded last, and a is running
+		okc := h.Eventually(10*time.Second, func() bool {
+			ar := f.arrivals(a)
+			return len(ar) > 0 && ar[len(ar)-1].Meta == meta && e.phase(a) == "running"
+		})
+		if !okc {
+			ar := f.arrivals(a)
+			last := ""
+			if len(ar) > 0 {
+				last = ar[len(ar)-1].Meta
+			}
+			e.fail("reload-during-login-lost", "round %d: a reload (metadatas.m = %q) was applied %v after the server accepted a re-login and returned without error; 10 s later the new session still runs %s with metadatas %q (status %q): the reload was stored but never applied", r, meta, delay, a, last, e.phase(a))
+			return false
+		}
+		run.Count("reloads_during_login", 1)
 	}
 	return true
 }
